@@ -79,6 +79,13 @@ def tasks(tier):
                    global_rng=True, before_sleep="call", max_unknown=None, timeline=True,
                    breaker=brk_closed if e.startswith("Policy") else None)
         out.append({"family": "hook-faults-jitter", "cfg": cfg, "entry": e, "bound": 0, "weight": 4})
+    # the process runs with warnings turned into errors
+    for e in ["Retry.call", "Retry.execute", "AsyncRetry.call", "AsyncRetry.execute", "Policy.call",
+              "AsyncPolicy.execute"]:
+        cfg = dict(M=3, alphabet=["ok", "x:T", "r:T"], abort=True, before_sleep="call", warnings_error=True,
+                   bs_async=e.startswith("Async"), max_unknown=None, timeline=True,
+                   breaker=brk_closed if "Policy" in e else None)
+        out.append({"family": "hook-faults-warnings-error", "cfg": cfg, "entry": e, "bound": 1, "weight": 4})
     for e in ["RetrySet.call", "AsyncRetrySet.execute", "RetryPolicySet.call",
               "AsyncRetryPolicySet.execute"]:
         cfg = dict(M=3, alphabet=["ok", "x:T", "r:T"], abort=True, before_sleep="policy",
@@ -135,6 +142,26 @@ def run_diff(cfg, entry, ch, tier):
             v.append((f"c15.differ:{fs[0][0]}",
                       f"hook fault {fs}: run differs from the silent run at step {d[0]}: "
                       f"silent={d[1]} faulty={d[2]}"))
+    # a hook that fails at the call boundary (a C callable with the wrong arity): it records
+    # nothing, so that hook's records are left out on both sides
+    for site in ("metric", "log"):
+        if not full[site] or full["boundary_hook"] or full["hook_dur"]:
+            continue   # (hooks that take time are a dimension of their own: an uncallable hook takes none)
+        n += 1
+        ch2 = diff_chooser(ch)
+        try:
+            w2 = seq.World(dict(full, boundary_hook=site), ch2)
+            w2.call(entry)
+            if ch2.pos != len(ch2.prefix):
+                raise Divergence(f"faulty run asked only {ch2.pos} of {len(ch2.prefix)} questions")
+        except Divergence as ex:
+            v.append((f"c15.diverge:{site}", f"uncallable {site} hook: {ex}"))
+            continue
+        d = first_diff(normalize(w.trace, 0.0, drop=(site,)), normalize(w2.trace, 0.0, drop=(site,)))
+        if d is not None:
+            v.append((f"c15.differ:{site}",
+                      f"uncallable {site} hook (TypeError at the call boundary): run differs from "
+                      f"the silent run at step {d[0]}: silent={d[1]} faulty={d[2]}"))
     w.extra_runs = n
     return w, v
 
